@@ -40,6 +40,9 @@ def gen_plan(rng, realtime, text=True):
                     body = ("%s %s %s line %d %s\n" % (c, t["path"], "out" if fd == 1 else "err", k, "x" * rng.below(30))).encode()
                     if rng.chance(1, 3):
                         body += b"second line of the same write\n"
+                    if rng.chance(1, 3):
+                        # text that is not valid UTF-8 (latin-1, a truncated multi-byte character)
+                        body = body[:-1] + rng.pick([b" caf\xe9", b" \xff\xfe", b" \xe2\x82", b" \x80"]) + b"\n"
                 else:
                     body = bytes(rng.below(256) for _ in range(rng.range(1, 40)))
                 if realtime and rng.chance(1, 3) and text:
@@ -162,7 +165,7 @@ def run_once(repo, extra_env=None):
 
 def c08_case(seed, model, rep):
     rng = scen.Rng(seed)
-    text = rng.chance(3, 4)
+    text = seed % 2 == 0
     plan, expect = gen_plan(rng, realtime=True, text=text)
     repo = make_repo(plan)
     try:
